@@ -330,6 +330,28 @@ def _cev(e, env):
                 return False
             left = right
         return True
+    if isinstance(e, ast.BinOp) and isinstance(e.op, ast.Mod):
+        l, r = _cev(e.left, env), _cev(e.right, env)
+        if isinstance(l, str) and isinstance(r, (str, int, tuple)) and (
+                not isinstance(r, tuple) or all(isinstance(x, (str, int)) for x in r)):
+            try:
+                return l % r
+            except (TypeError, ValueError):
+                raise _Unknown()
+        raise _Unknown()
+    if isinstance(e, ast.JoinedStr):
+        parts = []
+        for v in e.values:
+            if isinstance(v, ast.Constant):
+                parts.append(str(v.value))
+            elif isinstance(v, ast.FormattedValue) and v.conversion == -1 and v.format_spec is None:
+                x = _cev(v.value, env)
+                if not isinstance(x, (str, int)):
+                    raise _Unknown()
+                parts.append(str(x))
+            else:
+                raise _Unknown()
+        return ''.join(parts)
     if isinstance(e, ast.BinOp) and isinstance(e.op, (ast.Add, ast.Mult, ast.Sub)):
         l, r = _cev(e.left, env), _cev(e.right, env)
         try:
@@ -379,3 +401,34 @@ def const_eval(expr, env):
 def const_truth(expr, env):
     ok, v = const_eval(expr, env)
     return bool(v) if ok else None
+
+
+def module_str_constants(module):
+    """{name: str} for module-level names bound exactly once to a string expression that folds to a constant."""
+    binds = {}
+    for st in module.tree.body:
+        if isinstance(st, ast.Assign) and len(st.targets) == 1 and isinstance(st.targets[0], ast.Name):
+            binds.setdefault(st.targets[0].id, []).append(st.value)
+        elif isinstance(st, (ast.AugAssign, ast.AnnAssign)) and isinstance(st.target, ast.Name):
+            binds.setdefault(st.target.id, []).append(None)
+    env = {}
+    for _ in range(3):
+        for k, v in binds.items():
+            if len(v) == 1 and v[0] is not None and k not in env:
+                ok, val = const_eval(v[0], env)
+                if ok and isinstance(val, str):
+                    env[k] = val
+    return env
+
+
+def fold_str(node, module=None, extra_env=None):
+    """string value of an expression built from literals, %-formatting, concatenation, f-strings and single-assignment
+    module-level string constants; None when it does not fold."""
+    s = const_str(node)
+    if s is not None:
+        return s
+    env = dict(module_str_constants(module)) if module is not None else {}
+    if extra_env:
+        env.update(extra_env)
+    ok, v = const_eval(node, env)
+    return v if ok and isinstance(v, str) else None
